@@ -33,9 +33,12 @@ class C03(Prop):
                   "to the consumer are exactly the first k tokens of the port's history, k = number of its gets (exactly "
                   "once, in put order, late subscribers included, blocked gets served by later puts); the history of a "
                   "plain port is the puts, of a filter port the admitted puts and terminations, of an inter-workflow "
-                  "port and of its boundary ports what the boundary rules prescribe, a rule firing exactly on the tokens "
-                  "shown to it once its tag multiset is covered; nothing follows a termination token unless it was put "
-                  "after it. Unbounded histories, consumers, rules. The model is tied to /repo by running the real "
+                  "port and of each of its boundary targets exactly what ONE specification computed from the operation "
+                  "history puts on it (C03_boundary: a rule is shown the replayed history and every later token, and acts "
+                  "on a token -- token if PROPAGATE, then Term RECOVERED if TERMINATE -- iff its boundary tag multiset is "
+                  "covered by the tags shown to it, rules in order, the port keeping the token iff no covered self-rule "
+                  "matched; a covered rule stays covered and acts on every later token); nothing follows a termination "
+                  "token unless it was put after it. Unbounded histories, consumers, rules. The model is tied to /repo by running the real "
                   "classes and the model on generated operation histories (also under a shuffling event loop).")
     LEVEL_NOTE = ("Trusted: Coq kernel + vm_compute; hand-written model Port/Model.v (tied to the code by the correspondence "
                   "run only); asyncio.Queue/event loop internals; boundary targets are plain Ports or the port itself "
